@@ -167,6 +167,18 @@ Theorem C01_stmt_range_bound_refuted :
 Proof. exact reeval_refuted. Qed.
 Print Assumptions C01_stmt_range_bound_refuted.
 
+(* The guard clause "loop variables are never assigned" is necessary: `for i in range(4): mon.write(i); i = i + 2;
+   mon.write(i)` is accepted; Python re-binds i from the range at the head of every iteration (0 2 1 3 2 4 3 5), the C
+   for-loop counts with the assigned variable itself (0 2 3 5: two iterations).  Finding F-C01-loop-var-assigned. *)
+Theorem C01_stmt_loop_var_assigned_refuted :
+  exists c trP trC,
+    transl loopvar = Some c /\ sem_facts loopvar_sem demo_aug loopvar /\
+    pprog_exec loopvar_sem demo_aug 40 0 loopvar = Some trP /\
+    cprog_exec loopvar_sem demo_aug (info_of loopvar) 40 0 false c = Some trC /\
+    trP <> trC /\ guard_ok loopvar = false.
+Proof. exact loopvar_refuted. Qed.
+Print Assumptions C01_stmt_loop_var_assigned_refuted.
+
 (* The guard clause on stable types is necessary: `x = 1; x = 2.5; mon.write(x)` is accepted,
    the C variable keeps the type of its first assignment (int), so the device prints 2 where
    Python prints 2.5.  Finding F-C01-retype-truncates. *)
@@ -355,3 +367,71 @@ Example C01_tuple_order_nonvacuous :
                 length ns = 6%nat.
 Proof. exact tuple_order_demo. Qed.
 Print Assumptions C01_tuple_order_nonvacuous.
+
+(* ---------------------------------------------------------------- layout noise (comment lines, blank lines, trailing comments) *)
+From RV Require Import Lang.Lex Lang.Layout Lang.StmtLayout Proofs.StmtLayoutP.
+
+(* The statement model works on statement TREES; the parser finds the blocks of a script by indentation (model of
+   _collect_block / _collect_if_structure / _parse_simple_lines: Lang/Lex.v).  [stmts_of_lines] is the composition: lines ->
+   block tree -> C01 statements (if / elif / else chains, while, for-range, simple statements; the recognisers of one
+   comment-stripped line are parameters).  For EVERY layout inside the guard of the C07 round trip - comment-only lines at ANY
+   column (0, the column of the enclosing header, deeper, ...), blank and blanks-only lines before any statement and before
+   elif / else, trailing blanks or a trailing comment after any statement and any header, any indentation unit - the
+   statements read from the lines are the statements of the skeleton: no statement leaves or enters a block, no else arm is
+   lost, whatever junk lines stand inside the block. *)
+Theorem C01_stmt_layout_noise_invisible : forall simple cond_of for_of u ns,
+  layout_ok u ns = true ->
+  stmts_of_lines simple cond_of for_of (render_list (ind_unit u) O ns)
+  = stmts_of_trees simple cond_of for_of (map lerase ns).
+Proof. exact stmts_of_layout. Qed.
+Print Assumptions C01_stmt_layout_noise_invisible.
+
+(* hence the IR the statement model produces (setup part + body of the main loop) is the same for any two layouts of a script *)
+Theorem C01_stmt_ir_relayout_invariant : forall simple cond_of for_of u1 u2 pre1 pre2 main1 main2,
+  layout_ok u1 pre1 = true -> layout_ok u2 pre2 = true ->
+  layout_opt_ok u1 main1 = true -> layout_opt_ok u2 main2 = true ->
+  map lerase pre1 = map lerase pre2 -> option_map (map lerase) main1 = option_map (map lerase) main2 ->
+  ir_of_lines simple cond_of for_of (render_list (ind_unit u1) O pre1) (option_map (render_list (ind_unit u1) O) main1)
+  = ir_of_lines simple cond_of for_of (render_list (ind_unit u2) O pre2) (option_map (render_list (ind_unit u2) O) main2).
+Proof. exact ir_layout_invariant. Qed.
+Print Assumptions C01_stmt_ir_relayout_invariant.
+
+(* from noisy source LINES to the IR: an accepted script keeps every statement of its skeleton in its block and its phase
+   (C01_no_silent_drop composed with the round trip) *)
+Theorem C01_noisy_lines_keep_every_statement : forall simple cond_of for_of u pre main p m c,
+  layout_ok u pre = true -> layout_ok u main = true ->
+  stmts_of_trees simple cond_of for_of (map lerase pre) = Some p ->
+  stmts_of_trees simple cond_of for_of (map lerase main) = Some m ->
+  ir_of_lines simple cond_of for_of (render_list (ind_unit u) O pre) (Some (render_list (ind_unit u) O main)) = Some c ->
+  skel_c (c_setup c) = skel_p p /\ skel_c (c_loop c) = skel_p m.
+Proof. exact noisy_lines_keep_every_statement. Qed.
+Print Assumptions C01_noisy_lines_keep_every_statement.
+
+(* non-vacuity: `if x > 1:` with two statements and a statement after it; the noisy layout (11 lines) has a column-0 comment
+   and a blank line INSIDE the block in front of its second statement, trailing comments on the header and on a statement:
+   both layouts are inside the guard and are read as [if [a; b]; c]; the script in which b has left the block (what a parser
+   reads that lets the dedented comment end the block) is a different statement list *)
+Example C01_layout_noise_witness :
+  layout_ok [32;32;32;32] lay_plain = true /\ layout_ok [32;32;32;32] lay_noisy = true
+  /\ map lerase lay_plain = map lerase lay_noisy
+  /\ length (render_list (ind_unit [32;32;32;32]) O lay_noisy) = 11%nat
+  /\ demo_stmts (render_list (ind_unit [32;32;32;32]) O lay_noisy)
+     = Some [PIf (demo_ann t_if) [PExprS (demo_ann t_a); PExprS (demo_ann t_b)] [] []; PExprS (demo_ann t_c)]
+  /\ demo_stmts (render_list (ind_unit [32;32;32;32]) O lay_moved)
+     = Some [PIf (demo_ann t_if) [PExprS (demo_ann t_a)] [] []; PExprS (demo_ann t_b); PExprS (demo_ann t_c)]
+  /\ demo_stmts (render_list (ind_unit [32;32;32;32]) O lay_moved) <> demo_stmts (render_list (ind_unit [32;32;32;32]) O lay_noisy).
+Proof. exact layout_noise_witness. Qed.
+Print Assumptions C01_layout_noise_witness.
+
+(* an if / elif / else chain with a while and a for-range inside, junk lines before elif / else and inside every block: assembled
+   into one PIf with its arms; an else without its if is refused *)
+Example C01_layout_chain_witness :
+  layout_ok [32;32] lay_chain = true
+  /\ demo_stmts (render_list (ind_unit [32;32]) O lay_chain)
+     = Some [PIf (demo_ann t_if) [PExprS (demo_ann t_a)]
+                 [(demo_ann t_elif, [PWhile (demo_ann t_while) [PExprS (demo_ann t_b)]])]
+                 [PFor [107] (demo_ann t_for) [PExprS (demo_ann t_c); PExprS (demo_ann t_a)]];
+             PExprS (demo_ann t_c)]
+  /\ stmts_of_trees demo_simple demo_cond demo_for [SBlock Lex.KElse t_else [SLeaf t_a]] = None.
+Proof. exact layout_chain_witness. Qed.
+Print Assumptions C01_layout_chain_witness.
